@@ -147,7 +147,7 @@ CHECKS = {
         "level": "exploration",
         "lanes": [("paging", lane("c17", {"histories": 20, "steps": 150, "every": 10}, {"histories": 1000000, "steps": 500, "every": 8})), ("hist", hist("C17", qh=16))],
         "rule": "at sampled reachable states: Batches paged with limit in {none,0,1,2,3,n,n+1} x every status filter following the cursor, random (start_after, limit, status) triples, BatchesByIds with missing / duplicate / unsorted ids, IbcQueue paging, all compared with the unpaginated scan filtered by the harness and with the simulator's packet store; UnstakeRequests of every user compared with the reference model of open requests (also after every unstake / withdraw of the history lane)",
-        "require": ["c17:states_probed", "c17:states_with_3_batches", "op:liquid_unstake:ok", "op:withdraw:ok"],
+        "require": ["c17:states_probed", "c17:states_with_3_batches", "c17:deep_index_scenario", "op:liquid_unstake:ok", "op:withdraw:ok"],
         "assumptions": [SIM],
     },
     "C18": {
